@@ -177,13 +177,17 @@ impl ToTokens for DataMatchArm<'_> {
                 }
             ));
         } else if val.data.is_newtype() {
+            // The only field is converted like any other field: by its `with` function if it
+            // has one, then by its `map` / `and_then`.
+            let field = &val.data.fields[0];
+            let with_callable = &field.with_callable;
+            let post_transform = field.post_transform.as_ref();
             tokens.append_all(quote!(
                 #name_in_attr => {
-                    ::darling::export::Ok(
-                        #ty_ident::#variant_ident(
-                            ::darling::FromMeta::from_meta(__nested)
-                                .map_err(|e| e.at(#name_in_attr))?)
-                    )
+                    ::darling::export::identity::<fn(&::darling::export::syn::Meta) -> ::darling::Result<_>>(#with_callable)(__nested)
+                        #post_transform
+                        .map(#ty_ident::#variant_ident)
+                        .map_err(|e| e.with_span(__nested).at(#name_in_attr))
                 }
             ));
         } else {
